@@ -168,7 +168,11 @@ def run_property(pid, tier, seed, root):
     solver_ms = 0.0
     unit_rows = []
     cmds = []
+    spec_fns_counted = set()
+    spec_fns_pending = set()
     for job, res in results:
+        spec_fns_counted |= spec_fns_pending
+        spec_fns_pending = set()
         kind, u, defs = job[0], job[1], job[2]
         sd = job[3] if len(job) > 3 else None
         mode = '+'.join(d for d in defs if d not in ('CANARY',) and not d.startswith('KNOWN_'))
@@ -184,7 +188,7 @@ def run_property(pid, tier, seed, root):
             # every canary function must be refuted; every other function must still verify
             canary_names = set()
             for it in res.assembled.items:
-                if it.ident.endswith('__canary'):
+                if it.ident.endswith('__canary') or it.flags.get('canary') == 'self':
                     canary_names.add(it.emitted_name)
             for m in re.finditer(r'\bfn\s+([A-Za-z0-9_]+__canary)\b', res.assembled.text):
                 canary_names.add(m.group(1))
@@ -217,11 +221,25 @@ def run_property(pid, tier, seed, root):
         if not res.functions:
             undecided.append(f'{res.unit}: no function results'); continue
         failed = {short(n, res.unit) for n in res.failed_functions()}
+        nocount = {it.emitted_name for it in res.assembled.items if it.flags.get('count') == 'no'}
+        # lemmas of shared spec files are verified in every unit that includes them but counted once
+        for n_ln, ln in enumerate(res.assembled.text.split('\n')):
+            org = res.assembled.origins[n_ln] if n_ln < len(res.assembled.origins) else None
+            if org and org[0].startswith('T:specs/'):
+                mm = re.search(r'\bfn\s+([A-Za-z0-9_]+)', ln)
+                if mm and not ln.lstrip().startswith('//'):
+                    key = (org[0], mm.group(1))
+                    if key in spec_fns_counted:
+                        nocount.add(mm.group(1))
+                    elif sd is None:
+                        spec_fns_pending.add(key)
         if sd is None:
             for name, obs in res.obligations.items():
                 if not own_function(name, res.unit):
                     continue
                 sn = short(name, res.unit)
+                if sn.split('::')[-1] in nocount and sn not in failed:
+                    continue   # re-verified shared callee: counted in the unit that owns it
                 obligations += len(obs)
                 if sn not in failed:
                     discharged += len(obs)
